@@ -52,13 +52,17 @@ func Instances(obs []*Oblig, tier string, seed int64) []*exec.Instance {
 	var out []*exec.Instance
 	for _, o := range obs {
 		cfgs := []map[string]int{{}}
+		eff := EffectiveTier(o.ID, tier)
 		if o.Configs != nil {
-			cfgs = o.Configs(tier, seed)
+			cfgs = o.Configs(eff, seed)
 		}
 		for _, c := range cfgs {
 			in := &exec.Instance{Name: o.ID + cfgName(c), Pkg: o.Pkg, Func: o.Func, Config: c, Oblig: o.ID, Props: o.Props}
+			if tier == "thorough" && thoroughDrop[in.Name] {
+				continue
+			}
 			if o.Tune != nil {
-				o.Tune(in, tier)
+				o.Tune(in, eff)
 			}
 			out = append(out, in)
 		}
